@@ -786,14 +786,20 @@ local instance ratSqrt345 : HasSqrt Rat := ⟨sqrtQ⟩
 def exUnion : Dom Rat :=
   .union (.tri "x" (.const [0, 0]) (.const [4, 0]) (.const [0, 3])) (.circle "x" (.const [8, -2]) (.const [1]))
 
-/-- **Open finding `tri_boundary_extended_line` (the unconditional composite statement is false of the code).**
+/-- the third-edge clause of `TriangleBoundary._contains` BEFORE the repair de8b0f5: `isclose(bary_x + bary_y, 1)`
+    without any range check -/
+def triThirdEdgeOld (τ : Tol Rat) (x y ox oy ax ay bx cy : Rat) : Bool :=
+  let b := solveLgs (x - ox) (y - oy) (ax - ox) (ay - oy) (bx - ox) (cy - oy)
+  isclose τ.bary (b.1 + b.2) 1
+
+/-- **Finding `tri_boundary_extended_line` (repaired in /repo de8b0f5), negative result about the old code.**
     The lowest point (8, −3) of the disc lies on the infinite line through the triangle's edge corner_1–corner_2
-    (3x + 4y = 12), far outside the triangle. The coded boundary test of the triangle accepts it (no range check on
-    `bary_x + bary_y ≈ 1`), so the union's boundary test accepts it as well and `normal` selects the TRIANGLE's
-    edge normal (3/5, 4/5) — but a step of 1/2 along it ends inside the disc: not outward. -/
-theorem union_extended_line_witness :
-    bdryContains tolQ exUnion [("x", [8, -3])] [] = some true ∧
-    normalAux true tolQ exUnion [("x", [8, -3])] [] = some [3 / 5, 4 / 5] ∧
+    (3x + 4y = 12), far outside the triangle. The OLD third-edge test accepted it, so `on_a` was true and the union's
+    `where(on_a, a_normals, b_normals)` returned the TRIANGLE's normal there, which is (3/5, 4/5) — but a step of 1/2
+    along it ends inside the disc: not outward. -/
+theorem union_extended_line_old :
+    triThirdEdgeOld tolQ 8 (-3) 0 0 4 0 0 3 = true ∧
+    normalAux true tolQ (.tri "x" (.const [0, 0]) (.const [4, 0]) (.const [0, 3])) [("x", [8, -3])] [] = some [3 / 5, 4 / 5] ∧
     mem exUnion [("x", moved [8, -3] [3 / 5, 4 / 5] (1 / 2))] [] := by
   refine ⟨by decide +kernel, by decide +kernel, ?_⟩
   refine (contains_iff_mem tolQ exUnion _ _ true ?_ ?_ ?_).1 rfl
@@ -805,6 +811,14 @@ theorem union_extended_line_witness :
     obtain ⟨rfl, rfl⟩ := h1; obtain ⟨rfl, rfl⟩ := h2; obtain ⟨rfl, rfl⟩ := h3
     norm_num
   · decide +kernel
+
+/-- **After the repair** the triangle's boundary test rejects that point, the union's boundary test still accepts it
+    (it is on the disc), and `normal` returns the disc's radial vector (0, −1), which is outward there. -/
+theorem union_extended_line_repaired :
+    bdryContains tolQ (.tri "x" (.const [0, 0]) (.const [4, 0]) (.const [0, 3])) [("x", [8, -3])] [] = some false ∧
+    bdryContains tolQ exUnion [("x", [8, -3])] [] = some true ∧
+    normalAux true tolQ exUnion [("x", [8, -3])] [] = some [0, -1] := by
+  refine ⟨by decide +kernel, by decide +kernel, by decide +kernel⟩
 end finding
 
 
